@@ -254,6 +254,53 @@ func checkC15(e *Env) {
 		}
 	})
 
+	// histories: the error kind of a single-defect sentence must not depend on what was
+	// validated before it in the same process
+	histCalls := e.runHistories(drv, "C15", e.pick(32, 400), 5, func(ops []plan.Op, res []plan.Res) {
+		for i := range res {
+			op := &ops[i]
+			if op.Fn != "chk" || op.L < 0 || op.L >= ref.NLang || res[i].Panic != "" {
+				continue
+			}
+			n, ok := e.NFKD1(op.Str())
+			if !ok {
+				continue
+			}
+			toks := strings.Split(n, " ")
+			if len(strings.Fields(n)) != len(toks) {
+				continue // extra white space: not a single-defect sentence
+			}
+			unknown := ""
+			for _, t := range toks {
+				if _, in := m.Index[op.L][t]; !in {
+					unknown = t
+					break
+				}
+			}
+			_, st, _ := m.Dec(toks, int(op.L))
+			want := ""
+			switch {
+			case st == ref.OK:
+				continue
+			case st == ref.BadCount && unknown == "":
+				want = "wordlen"
+			case st == ref.BadChecksum:
+				want = "checksum"
+			case st == ref.UnknownWord:
+				want = "other"
+			default:
+				continue // several defects at once
+			}
+			got := errClassOf(res[i].Err)
+			if got != want || (want == "other" && !strings.Contains(errText(res[i].Err), unknown)) {
+				e.Violate(&Violation{What: fmt.Sprintf("after earlier calls in the same process CheckMnemonic reports error class %s (%s) for a %s sentence whose only defect calls for %s: %s", got, errText(res[i].Err), ref.Names[op.L], want, preview(op.Str())),
+					Ops: ops[:i+1], Expected: want, Observed: res[i], Detail: historyNote})
+				return
+			}
+		}
+	})
+	errKinds.Add("calls_inside_histories", histCalls)
+
 	if e.Violations() == 0 && (byDefect.Get("count") == 0 || byDefect.Get("checksum") == 0 || byDefect.Get("unknown") == 0) {
 		fatalInconclusive("C15: a defect class was not explored")
 	}
